@@ -423,3 +423,129 @@ def run_linear_contains(rep, F, D_con, tier, rule="R2.11"):
         if res and not any(kind == "bad" for kind, _, _ in rec.log):
             n_ok += 1
     rep.floor(rule, "linear contains tables", n_ok, 4)
+
+
+# ---------------------------------------------------------------- Contains folds over collections (R2.12)
+def run_contains_folds(rep, F, rule="R2.12"):
+    """The hand-written Contains impls that fold over the members of a collection, on collections of 0..3 abstract members with the member
+    predicates (contains / intersects / equality of a member with the other operand) as free booleans, every consistent assignment:
+      Point ⊇ Multi* / GeometryCollection  = the collection is not empty and the point contains EVERY member;
+      MultiPolygon ⊇ MultiPoint            = neither is empty, EVERY point intersects the multi polygon and SOME point is in its interior;
+      MultiPoint / MultiPolygon / GeometryCollection ⊇ Coord = SOME member contains it (members are disjoint in the property's domain)."""
+    import itertools
+    import re
+    from ..symex import bare
+    from .c02_kernels import GT
+    rep.rule(rule, "Contains folds over collections (0..3 abstract members, every assignment of the member predicates): Point ⊇ collection = non-empty and all members contained; "
+                   "MultiPolygon ⊇ MultiPoint = both non-empty, all points intersect, some point is interior; collection ⊇ Coord = some member contains it")
+    P = GT + "point::Point"
+    O = lambda n: ("opaque", n)
+
+    def vec(items):
+        return ("call", "vec!", (("array", tuple(items)),))
+    coll = {
+        "MultiPoint": lambda ms: ("adt", GT + "multi_point::MultiPoint", "MultiPoint", (vec(ms),)),
+        "MultiLineString": lambda ms: ("adt", GT + "multi_line_string::MultiLineString", "MultiLineString", (vec(ms),)),
+        "MultiPolygon": lambda ms: ("adt", GT + "multi_polygon::MultiPolygon", "MultiPolygon", (vec(ms),)),
+        "GeometryCollection": lambda ms: ("adt", GT + "geometry_collection::GeometryCollection", "GeometryCollection", (vec(ms),)),
+    }
+    cases = []
+    for c in ("MultiPoint", "MultiLineString", "MultiPolygon", "GeometryCollection"):
+        cases.append(("Point⊇%s" % c, r"point::Point<T>$", r"%s<T>$" % coll[c](())[1].replace(GT, "").replace("::", "::"), "rhs", c, "all"))
+    cases.append(("MultiPolygon⊇MultiPoint", r"multi_polygon::MultiPolygon<T>$", r"multi_point::MultiPoint<T>$", "rhs", "MultiPoint", "all-any"))
+    for c in ("MultiPoint", "MultiPolygon", "GeometryCollection"):
+        cases.append(("%s⊇Coord" % c, r"%s<T>$" % coll[c](())[1].replace(GT, ""), r"coord::Coord<T>$", "self", c, "any"))
+    n_ok = 0
+    for key, sre, rre, side, cname, law in cases:
+        try:
+            fn = F.impl_method(CONTAINS, sre, rre, "contains", crates=("geo",))
+        except KeyError as e:
+            rep.bad(rule, "fold:%s:anchor" % key, str(e))
+            continue
+        bad = None
+        n = 0
+        for K in range(4):
+            members = [O("m%d" % i) for i in range(K)]
+            cval = ("&", coll[cname](members))
+            other = ("&", O("x"))
+            args = [other, cval] if side == "rhs" else [cval, other]
+            ex = Symex(F, concrete_iters=True, loop_bound=K + 4, max_paths=20000, budget_s=30, inline_crates=("geo", "geo_types"),
+                       no_inline=[r"Contains<.*>>::contains$", r"Intersects<.*>>::intersects$", r"::contains$", r"::intersects$", r"HasDimensions>::is_empty$"])
+            ex.resolve_by_receiver = False
+            try:
+                paths = [p for p in ex.run(fn, args=args) if p.kind != "cut"]
+            except Unanalysable as e:
+                bad = ("unanalysable", "%d member(s): %s" % (K, e))
+                break
+            for p in paths:
+                if p.kind != "ret":
+                    bad = ("paths", "a path does not return")
+                    break
+                # member predicates decided on this path
+                val = {}
+                other_atoms = []
+                for t, v in p.pc:
+                    b = bare(t)
+                    m = re.match(r"^(contains|intersects)\((.*)\)$", b)
+                    mi = re.findall(r"opaque\(m(\d)\)", b)
+                    if m and len(set(mi)) == 1 and "opaque(x)" in b:
+                        val[(m.group(1), int(mi[0]))] = bool(v)
+                        continue
+                    m2 = re.match(r"^\((.*) == (.*)\)$", b)
+                    if m2 and len(set(mi)) == 1 and "opaque(x)" in b:
+                        val[("contains", int(mi[0]))] = bool(v)       # equality of a member point with the coordinate = that member contains it
+                        continue
+                    if re.match(r"^is_empty\(", b):
+                        val[("empty", "self" if "opaque(x)" in b else "coll")] = bool(v)
+                        continue
+                    other_atoms.append(b)
+                if val.get(("empty", "coll")) is False and K == 0:
+                    continue                   # infeasible: a collection without members is empty
+                if other_atoms:
+                    bad = ("other-decision", "decides on `%s`, which is not a predicate of one member against the other operand" % other_atoms[0][:120])
+                    break
+                r = p.ret
+                if r[0] != "const":
+                    # the result is itself a member predicate (tail position): both values
+                    b = bare(r)
+                    m = re.match(r"^(contains|intersects)\((.*)\)$", b)
+                    mi = re.findall(r"opaque\(m(\d)\)", b)
+                    if not (m and len(set(mi)) == 1):
+                        bad = ("result", "returns `%s`" % b[:120])
+                        break
+                    outcomes = [(dict(val, **{(m.group(1), int(mi[0])): x}), x) for x in (False, True)]
+                else:
+                    outcomes = [(val, bool(r[1]))]
+                for v_, got in outcomes:
+                    # every completion of the undecided member predicates must give the same answer as the law (short-circuit evaluation leaves some undecided)
+                    free = [(kind_, i) for kind_ in (("contains", "intersects") if law == "all-any" else ("contains",)) for i in range(K) if (kind_, i) not in v_]
+                    wants = set()
+                    for bits in itertools.product((False, True), repeat=len(free)):
+                        a = dict(v_)
+                        a.update(dict(zip(free, bits)))
+                        if any(a.get(("contains", i)) and a.get(("intersects", i)) is False for i in range(K)):
+                            continue           # interior implies intersects
+                        if v_.get(("empty", "self")) or v_.get(("empty", "coll")):
+                            wants.add(False)
+                            continue
+                        if law == "all":
+                            wants.add(K > 0 and all(a[("contains", i)] for i in range(K)))
+                        elif law == "any":
+                            wants.add(any(a[("contains", i)] for i in range(K)))
+                        else:
+                            wants.add(K > 0 and all(a[("intersects", i)] or a[("contains", i)] for i in range(K)) and any(a[("contains", i)] for i in range(K)))
+                    n += 1
+                    if wants != {got}:
+                        bad = ("table", "%d member(s), member predicates %s: returns %s, the law gives %s" % (
+                            K, {"%s(m%s)" % k: x for k, x in v_.items()}, got, sorted(wants)))
+                        break
+                if bad:
+                    break
+            if bad:
+                break
+        if bad:
+            rep.bad(rule, "fold:%s:%s" % (key, bad[0]), "%s: %s" % (key, bad[1]), where=fn.loc())
+        else:
+            n_ok += 1
+            rep.ok(rule, "fold:%s[%d rows, 0..3 members]" % (key, n))
+    rep.floor(rule, "contains folds", n_ok, 8)
